@@ -4,6 +4,7 @@
 (* outlives a parse:                                                                           *)
 (*   incspec  docutils' Include.option_spec carries the MyST-only options                      *)
 (*   cfgext   the shared configuration's enable_extensions contains html_image                 *)
+(*   invcache inventories loaded for an earlier document are reused (keyed by file path only) *)
 (*   roles    a role defined through eval-rst is in docutils' registry (docutils' own design;  *)
 (*            kept out of the histories, see DESIGN.md)                                        *)
 (* Document kinds are chosen to touch or to observe a channel.  Parse(d): out = F(d, ps);      *)
@@ -19,16 +20,22 @@ CONSTANTS Kinds, MaxHist,
           Part,
           DevIncludeSpecMutation,      \* as-built before the fix: a MyST include extends Include.option_spec for good
           DevSharedExtensionSet,       \* a seeded change: figure-md's temporary html_image stays in the shared set
-          DevEnvAttribute              \* a seeded change: heading slugs are kept in an env attribute that is not merged
+          DevEnvAttribute,             \* a seeded change: heading slugs are kept in an env attribute that is not merged
+          DevInventoryCache            \* a seeded change: loaded inventories are cached per file path for the whole process
 
-PS0 == [incspec |-> FALSE, cfgext |-> FALSE]
+PS0 == [incspec |-> FALSE, cfgext |-> FALSE, invcache |-> "none"]
 (* what a document of kind k produces in process state ps (only the part that can depend on ps) *)
 F(k, ps) == CASE k = "evalrst_include_opt" -> IF ps.incspec THEN "option accepted" ELSE "option error"
               [] k = "html_img" -> IF ps.cfgext THEN "image" ELSE "raw"
+              \* the same inventory file configured with two base URLs (two configurations of the same document)
+              [] k = "inv_stable" -> IF ps.invcache = "latest" THEN "latest url" ELSE "stable url"
+              [] k = "inv_latest" -> IF ps.invcache = "stable" THEN "stable url" ELSE "latest url"
               [] OTHER -> "ok"
 (* what parsing a document of kind k does to the process state *)
 After(k, ps) == CASE k = "include" /\ DevIncludeSpecMutation -> [ps EXCEPT !.incspec = TRUE]
                   [] k = "figure_md" /\ DevSharedExtensionSet -> [ps EXCEPT !.cfgext = TRUE]
+                  [] k = "inv_stable" /\ DevInventoryCache /\ ps.invcache = "none" -> [ps EXCEPT !.invcache = "stable"]
+                  [] k = "inv_latest" /\ DevInventoryCache /\ ps.invcache = "none" -> [ps EXCEPT !.invcache = "latest"]
                   [] OTHER -> ps
 
 Partitions(S, n) == {f \in [S -> 1..n] : TRUE}
